@@ -2,6 +2,8 @@
 configurations and effect logs, per-message projections and the direct oracles (literal transcriptions of the
 property statements over the implementation's log - they never look at the model)."""
 import json
+import random
+import zlib
 
 import common as C
 from cli_args import cli_argv
@@ -1078,7 +1080,128 @@ def gen_recv(r, focus="c02", allow_d10=True):
                 break
     del lt_dummy
     gen_exotic(r, case)
+    gen_wire(case)
     return case
+
+
+WIRE_P = 0.25      # fraction of the receive cases in which valid messages are NOT written the way make_payload always wrote them
+# labels a message carries besides the ones of its table entry (tracing / correlation / routing headers, falsy values, values
+# no labels_types entry can describe); none of them means anything to the receiver
+WIRE_EXTRAS = [("trace_id", "abc123"), ("trace_id", "abc123"), ("priority", 3), ("flag", True), ("flag", False), ("empty", ""),
+               ("zero", 0), ("ratio", {"f": (0.25).hex()}), ("tags", ["a", 1]), ("parent", None), ("queue", "high")]
+WIRE_GHOSTS = [["eta", 3], ["ghost", 2], ["deadline", 4], ["debug", 5], ["blob", 6], ["misc", 1]]
+WIRE_TOP = [{"sent_at": 1.5}, {"version": 2, "producer": "go-client"}, {"headers": {"x": [1, 2]}}, {"label_types": {"a": 3}}]
+
+
+def wire_typable(v):
+    """can a labels_types entry describe this label value (table form: a float is {"f": hex})"""
+    return isinstance(v, dict) or type(v) in (int, str, bool)
+
+
+def gen_wire(case):
+    """the WIRE FORM of the valid (known-task / unknown-task) messages of a receive case (driver: wire_payload).  Until now
+    every label of every message was typed by prepare_label and written through TaskiqMessage + the broker's formatter:
+    labels_types covered exactly the labels.  M["wire"] (absent = that old form):
+      via    model: TaskiqMessage(...) through a formatter | kicker: the real AsyncKicker.kiq on a client-side broker
+             object with a pre_send middleware that adds labels (and removes some) AFTER the kicker computed labels_types;
+             what that broker's kick() receives is the wire message | raw: a hand-written JSON mapping (another client)
+      lt     dict | null | omit (field absent; raw only)
+      typed  {key: spell} - the labels that have a labels_types entry.  spell std: the string a client writes for that type
+             (str(value)) | num: the JSON value itself with its type | any: the JSON value with type ANY.  Every other label
+             of the table entry travels as its plain JSON value with no entry: covers all / some / none of the labels, or {}
+      ghost  [[key, type]] labels_types entries whose label is not there (kicker: typed by the kicker, removed by the hook)
+      cfmt   the client's formatter (proxy | json), pre_send (sync | async), inplace (the hook writes into message.labels /
+             returns a copy), top (extra top-level fields), text (key order, separators, escaping) for raw
+    Half of these messages get 1-3 more labels than their table entry (a new table entry is appended): headers a tracing
+    middleware stamps, falsy values (False, "", 0), values only an untyped label can carry (None, a list).
+    Whatever the wire form, a correct receiver runs the task with exactly the label dict of the table entry (typed ones
+    parsed back, untyped ones as sent): the expected labels / timeout of the oracles and of the model are unchanged.
+    The random stream of gen_recv is not touched: the choices come from a generator seeded with the case built so far."""
+    rw = random.Random(zlib.crc32(json.dumps(case, sort_keys=True).encode()))
+    if rw.random() >= WIRE_P:
+        return
+    tbl = case["labels"]
+    for M in case["msgs"]:
+        if M["kind"] == "bad" or rw.random() >= .75:
+            continue
+        via = rw.choice(["model"] * 3 + ["kicker"] * 4 + ["raw"] * 3)
+        lt = "dict" if via == "kicker" else rw.choice(["dict"] * 4 + ["null"] + (["omit"] if via == "raw" else []))
+        if rw.random() < .5:
+            d = dict(tbl[M["labels"]])
+            for k, v in rw.sample(WIRE_EXTRAS, rw.choice([1, 1, 2, 3])):
+                d[k] = v
+            keys = [json.dumps(x, sort_keys=True) for x in tbl]
+            kd = json.dumps(d, sort_keys=True)
+            if kd in keys:
+                M["labels"] = keys.index(kd)
+            else:
+                tbl.append(d)
+                M["labels"] = len(tbl) - 1
+        d = tbl[M["labels"]]
+        can = [k for k in sorted(d) if wire_typable(d[k])]
+        mode = rw.choice(["all", "all", "some", "some", "some", "none"]) if lt == "dict" else "none"
+        typed = {}
+        for k in can:
+            if mode == "all" or (mode == "some" and rw.random() < .5):
+                typed[k] = "std" if via == "kicker" or rw.random() < .7 else rw.choice(["num", "any"])
+        if mode == "some" and typed and len(typed) == len(d):
+            del typed[rw.choice(sorted(typed))]
+        w = dict(via=via, lt=lt, typed=typed, ghost=[])
+        if lt == "dict":
+            w["ghost"] = [list(g) for g in rw.sample(WIRE_GHOSTS, rw.choice([0, 0, 0, 1, 2]))]
+        if via != "raw":
+            w["cfmt"] = rw.choice(["proxy", "proxy", "json"])
+        if via == "kicker":
+            w.update(pre_send=rw.choice(["sync", "sync", "async"]), inplace=rw.random() < .6)
+        if via == "raw":
+            if rw.random() < .5:
+                w["top"] = rw.choice(WIRE_TOP)
+            w["text"] = dict(ascii=rw.random() < .5, compact=rw.random() < .5, order=rw.randrange(720))
+        M["wire"] = w
+
+
+def wire_cover(case, M):
+    """how labels_types relates to the labels of one wire message (evidence only)"""
+    w = M["wire"]
+    if w["lt"] != "dict":
+        return "labels_types-" + w["lt"] + ("(no labels)" if not case["labels"][M["labels"]] else "")
+    n, t = len(case["labels"][M["labels"]]), len(w["typed"])
+    return "labels_types-" + ("{}-no-labels" if not n and not w["ghost"] else "only-entries-for-absent-labels" if not n else
+                              "covers-all" if t == n else "covers-some" if t else
+                              "{}-labels-present" if not w["ghost"] else "covers-none")
+
+
+def count_wire(rep, case, M, evs):
+    w = M.get("wire")
+    if not w:
+        rep.count("wire:as-always(every label typed by prepare_label, TaskiqMessage through the formatter)")
+        return
+    d = case["labels"][M["labels"]]
+    cover = wire_cover(case, M)
+    rep.count("wire:via:" + w["via"] + (",client-formatter:" + w["cfmt"] if w.get("cfmt") else ""))
+    rep.count("wire:" + cover)
+    if w["ghost"]:
+        rep.count("wire:labels_types-entries-for-absent-labels")
+    for k in d:
+        sp = w["typed"].get(k)
+        rep.count("wire:label:" + ("untyped" if sp is None else "typed(%s)" % {"std": "client string", "num": "JSON value + its type",
+                                                                               "any": "JSON value + ANY"}[sp]))
+        v = d[k]
+        if sp is None and (v is None or isinstance(v, (list, bool)) or v in ("", 0)):
+            rep.count("wire:untyped-label-value:" + ("None" if v is None else "list" if isinstance(v, list) else
+                                                     "bool" if isinstance(v, bool) else "falsy(\"\" / 0)"))
+    if "timeout" in d:
+        rep.count("wire:timeout-label:" + ("typed" if "timeout" in w["typed"] else "untyped(arrives as the JSON value sent)"))
+    untyped = [k for k in d if k not in w["typed"]]
+    if M["kind"] == "ok" and untyped and w["lt"] == "dict":
+        # labels_types is there but does not cover every label
+        saves = [e for e in evs if e[0] == "save.enter"]
+        if saves:
+            rep.count("wire:labels_types-does-not-cover-all:result-stored")
+            if all(k in [x[0] for x in saves[0][5]] for k in untyped):
+                rep.count("wire:labels_types-does-not-cover-all:stored-result-carries-the-untyped-labels")
+        if "timeout" in untyped and any(e[0] == "save.enter" and e[4] == E_TIMEOUT for e in evs):
+            rep.count("wire:untyped-timeout-label:enforced(TimeoutError stored)")
 
 
 EXC_P = 0.10       # fraction of the raising task bodies whose exception is not a plain instance of a class of the table
@@ -1503,6 +1626,8 @@ def count_recv(rep, case, per, late):
     for i, M in enumerate(case["msgs"]):
         evs = per[i]
         rep.count("kind:" + M["kind"])
+        if M["kind"] != "bad":
+            count_wire(rep, case, M, evs)
         if wall:
             count_wall(rep, M, evs)
         if late_b and late_b.get("backend") and any(e[0] == "save.enter" for e in evs):
